@@ -529,3 +529,21 @@ def pending_queue_ops(body, names=("Extend::extend",)):
         if e.has_field("RetirementQueue", "pending") or any(("call", l) in A.origins(body, e) for l in locks):
             out.append(n.id)
     return out
+
+
+def check_forwarder(ctx, inst, fn, callee, mapping, what):
+    """a thin helper hands its own parameters on: in `fn`, the single call of `callee` receives parameter `p` of fn at argument
+    position `a` for every (p, a) in mapping (no other value, no arithmetic). A helper that forwards the wrong one of two
+    like-typed parameters type-checks and is invisible at every call site rule."""
+    b = ctx.fn(fn, inst)
+    if b is None:
+        return
+    sites = ctx.sites(b, R.call(callee), inst, exact=1)
+    for s_ in sites:
+        for (p, a) in mapping:
+            e = R.arg_expr(b, b.nodes[s_], a)
+            while e.k == "call" and e.a and any(path_matches(e.extra, t) for t in ("TreeSlot::new", "Arc::new", "Some")):
+                e = e.a[0]
+            ok = e.k == "arg" and e.extra[0] == p
+            ctx.check(ok, inst, "PROVENANCE", b.path, "%s: parameter %d (%s) is what reaches %s" % (what, p - 1, b.local_name(p), callee.rsplit("::", 1)[-1]),
+                      b.where(s_), {"arg": e.show()[:80]})
